@@ -126,7 +126,7 @@ package balance
 // with Amounts.Plus (pointwise sum) - after "Total (A+L)" was rendered from the first (un-negated) and
 // "Total (E+I+E)" from the second (negated).
 //@ func (*Renderer).Render
-//@   requires rn != nil && r != nil && r.AL != nil && r.EIE != nil && r.Registry != nil && r.Registry.accounts != nil && len(r.partition.periods) >= 0
+//@   requires rn != nil && reportOK(r)
 //@   modifies *
 //@   callback Totals=0
 //@   callback render=0
@@ -145,6 +145,13 @@ package balance
 //@   loop 2 invariant 0 <= $i && $i <= len($range) && tlen() == old(tlen()) + 1 && widthOK(rn, tbl) && allComplete(tbl) && (forall i int :: {$range[i]} 0 <= i && i < len($range) ==> sortedTree($range[i]))
 //@   loop 3 invariant 0 <= $i && $i <= len($range) && tlen() == old(tlen()) + 2 && widthOK(rn, tbl) && allComplete(tbl) && (forall i int :: {$range[i]} 0 <= i && i < len($range) ==> sortedTree($range[i]))
 //
+// A report built by NewReport keeps its two trees, its registry and its partition for life (these
+// fields are assigned nowhere else): reportOK is an uninterpreted, state-independent predicate with this
+// one unfolding - a trusted data-structure invariant that survives calls with unknown effects.
+//@ spec reportOK(r *Report) bool
+//@ axiom report_ok_unfold: forall r *Report :: {reportOK(r)} reportOK(r) ==> r != nil && r.AL != nil && r.EIE != nil && r.AL != r.EIE && r.Registry != nil && r.Registry.accounts != nil && len(r.partition.periods) >= 0
 //@ func NewReport
+//@   requires reg != nil && reg.accounts != nil
 //@   modifies nothing
 //@   ensures result != nil && fresh(result) && result.AL != nil && result.EIE != nil && result.AL != result.EIE && result.Registry == reg && result.partition == part
+//@   ensures [trusted] @ok: reportOK(result)
